@@ -41,6 +41,12 @@
 //!     seq/map, byte position of its first byte),
 //!   - `doc_starts: Vec<usize>` — byte offset where each document's first line begins,
 //!   - `stats: YStats` — counts of every presentation device used.
+//! * [`YAvoid`] (`opts.avoid`) — trigger shapes of the *open known findings* that the renderer
+//!   must not produce (DESIGN §2.6 "excluded by construction while the finding is open");
+//!   `YAvoid::none()` by default in every preset. A property sets exactly the flags of its own
+//!   open findings for its main search and runs a small `open-finding-shapes` sub-check with
+//!   nothing avoided. [`known_shapes`]`(&rendered)` reports which of those shapes a rendered
+//!   stream contains (from the span table), for attributing a failure to its finding.
 //! * [`plain_ok`], [`looks_non_string`] — the quoting discipline (public so C15 can decide
 //!   whether *its* subject's output was obliged to quote).
 //!
@@ -87,6 +93,11 @@
 //! * **Documents**: `---` between documents, optional before the first; `...` only with
 //!   `doc_end_markers` (M7A3 documented gap; off in presets). No directives, no tags (not
 //!   in the statement). An empty (null) document is only written with an explicit `---`.
+//! * **Comments** are block-context only by default (`flow_comments: false`): mod.rs
+//!   "Supported" says "Comments (ignored in block context)"; a comment inside a multi-line
+//!   flow collection is not documented as supported. A *trailing* comment contains `: ` only
+//!   on a line that has its own `key:` (documented: `b #c: d` → `KeyWithoutValue`,
+//!   limitations.md and tests/yaml_tab_comment_tests.rs).
 //! * **Not generated because the statement does not list them**: tags, directives, merge
 //!   keys, explicit keys, single-pair flow sequence entries, tabs as indentation (illegal).
 //!
